@@ -54,17 +54,24 @@ CHECKS["C14"] = {
 }
 
 
-def _san(quick_len, thorough_len):
+SAN_DEEP = "S0a0p0,S1a1p0,S2a0p0"
+
+
+def _san(quick_len, thorough_len, deep_len):
+    what = ("adapter streams <= %d bytes over the 27-byte alphabet (first bytes of all 16 command values, cf, ff; second bytes 80 81 90 91 bf aa; "
+            "plain 00 55 7f) x all partitions x 3 consumption patterns x 3 start states x arbitration yes/no%s; info responses for ids 0..8 with "
+            "declared length 0..255 (18 values), 0..len+2 (<=20) data frames, 4 fill patterns, 3-4 chunk styles; each followed by the well-formed "
+            "suffix 70 | 55 c6 aa | 71 that must be decoded; forked batches, oracle = no ASan/UBSan report, no signal, no alarm, suffix decoded")
     return {
         "harness": "c14_framing", "sources": SRC, "deps": DEPS, "variant": "san",
         "quick": {"parts": 16, "args": ["--prop", "C20", "--len", quick_len], "deadline": 400,
-                  "bounds": "adapter streams <= %d bytes over the 27-byte alphabet, all partitions/patterns/start states; info responses "
-                            "of declared length 0..255" % quick_len},
-        "thorough": {"parts": 16, "args": ["--prop", "C20", "--len", thorough_len], "deadline": 4000,
-                     "bounds": "adapter streams <= %d bytes over the 27-byte alphabet, all partitions/patterns/start states; info responses "
-                               "of declared length 0..255" % thorough_len},
+                  "bounds": what % (quick_len, "")},
+        "thorough": {"parts": 16, "args": ["--prop", "C20", "--len", thorough_len, "--deep", deep_len, "--deepmodes", SAN_DEEP], "deadline": 4000,
+                     "bounds": what % (thorough_len, " (<= %d bytes for modes %s)" % (deep_len, SAN_DEEP))},
     }
 
 
-# adapter-stream part of C20 (to be appended to CHECKS["C20"]["runs"] by whoever owns C20)
-C20_ENH_RUNS = [_san(3, 4)]
+# adapter-stream part of C20: append to CHECKS["C20"]["runs"] (whoever owns C20), e.g.
+#   from .checks_enhA import C20_ENH_RUNS; CHECKS["C20"]["runs"] += C20_ENH_RUNS
+# signatures start with C20/ (crash | hang | suffix-not-decoded | no-progress | bad-result)
+C20_ENH_RUNS = [_san(3, 4, 5)]
